@@ -32,13 +32,15 @@ logging.disable(logging.CRITICAL)
 REAL_DATETIME = _dt.datetime
 T0 = 1650000000000
 SELS = [11, 22]
+LINES = {}  # market id -> handicap lines
 
 
-def md(status, version, winners=None, event="31389771"):
-    runners = [{"status": "ACTIVE", "sortPriority": i + 1, "id": s} for i, s in enumerate(SELS)]
+def md(status, version, winners=None, event="31389771", lines=(0,)):
+    """lines: the handicap lines of the market ((0,) = ordinary market; several = one selection id on several lines that settle differently)"""
+    runners = [{"status": "ACTIVE", "sortPriority": i + 1, "id": s, **({"hc": h} if lines != (0,) else {})} for i, (s, h) in enumerate((s, h) for s in SELS for h in lines)]
     if winners is not None:
         for r in runners:
-            r["status"] = "WINNER" if r["id"] in winners else "LOSER"
+            r["status"] = "WINNER" if (r["id"], r.get("hc", 0)) in winners else "LOSER"
     return {"bspMarket": False, "turnInPlayEnabled": True, "persistenceEnabled": True, "marketBaseRate": 5, "eventId": event, "eventTypeId": "7",
             "numberOfWinners": 1, "bettingType": "ODDS", "marketType": "WIN", "marketTime": "2022-04-15T12:00:00.000Z", "suspendTime": "2022-04-15T12:00:00.000Z",
             "bspReconciled": False, "complete": True, "inPlay": False, "crossMatching": True, "runnersVoidable": False,
@@ -54,25 +56,28 @@ def build_market(rnd, mid, start):
     version = 100
     n = rnd.randint(3, 12)
     cadence = rnd.choice([100, 500, 1000, 1000, 3000])
+    lines_ = rnd.choice([(0,), (0,), (-0.5, 1.5)])
+    LINES[mid] = lines_
+    keys = [(s, h) for s in SELS for h in lines_]
     for t in range(n):
         pt += cadence if rnd.random() < 0.8 else rnd.choice([0, 1000])  # 0: identical publish times do occur
-        mc = {"id": mid, "rc": [{"id": s, "atb": [[2.0, 20]], "atl": [[2.2, 20]], "trd": [[2.0, 10.0 + t]]} for s in SELS]}
+        mc = {"id": mid, "rc": [{"id": s, **({"hc": h} if lines_ != (0,) else {}), "atb": [[2.0, 20]], "atl": [[2.2, 20]], "trd": [[2.0, 10.0 + t]]} for s, h in keys]}
         if t == 0:
-            mc["marketDefinition"] = md("OPEN", version)
+            mc["marketDefinition"] = md("OPEN", version, lines=lines_)
         lines.append(json.dumps({"op": "mcm", "clk": "A", "pt": pt, "mc": [mc]}))
         exp.append((pt, "book", None))
     closes = rnd.choice([1, 1, 2, 3])
     for c in range(closes):
         pt += rnd.choice([500, 1000])
         version += 1
-        winners = [rnd.choice(SELS)]
-        lines.append(json.dumps({"op": "mcm", "clk": "A", "pt": pt, "mc": [{"id": mid, "marketDefinition": md("CLOSED", version, winners)}]}))
+        winners = [rnd.choice(keys)] if lines_ == (0,) else [k for k in keys if rnd.random() < 0.5] or [keys[0]]  # handicap lines of one selection settle differently
+        lines.append(json.dumps({"op": "mcm", "clk": "A", "pt": pt, "mc": [{"id": mid, "marketDefinition": md("CLOSED", version, winners, lines=lines_)}]}))
         exp.append((pt, "closed", winners))
         if c + 1 < closes and rnd.random() < 0.5:
             # data arrives again: the market re-opens
             pt += 500
             version += 1
-            mc = {"id": mid, "marketDefinition": md("OPEN", version), "rc": [{"id": s, "atb": [[2.0, 20]], "atl": [[2.2, 20]]} for s in SELS]}
+            mc = {"id": mid, "marketDefinition": md("OPEN", version, lines=lines_), "rc": [{"id": s, **({"hc": h} if lines_ != (0,) else {}), "atb": [[2.0, 20]], "atl": [[2.2, 20]]} for s, h in keys]}
             lines.append(json.dumps({"op": "mcm", "clk": "A", "pt": pt, "mc": [mc]}))
             exp.append((pt, "book", None))
     return lines, exp
@@ -86,6 +91,8 @@ class Recorder(BaseStrategy):
         self.closed_calls = []
         self.placed = {}
         self.was_closed = set()
+        self.fault_at = None  # index of the callback at which a call made under real_time() raises (contained by the framework)
+        self.ncb = 0
 
     def fail(self, prop, msg):
         if len(self.F.setdefault(prop, [])) < 3:
@@ -105,12 +112,18 @@ class Recorder(BaseStrategy):
                 self.fail("C20", "market %s got data again after a close but is not re-opened with its cleared lists reset (closed=%s orders_cleared=%s market_cleared=%s)" % (market.market_id, market.closed, market.orders_cleared, market.market_cleared))
         if market.market_id not in self.placed and market_book.status == "OPEN":
             os_ = []
-            for s in SELS:
-                tr = Trade(market.market_id, s, 0, self)
+            for s, h in [(s, h) for s in SELS for h in LINES.get(market.market_id, (0,))]:
+                tr = Trade(market.market_id, s, h, self)
                 o = tr.create_order("BACK", LimitOrder(2.2, 2.0))  # crosses: matched at once
                 if market.place_order(o):
                     os_.append(o)
             self.placed[market.market_id] = os_
+        self.ncb += 1
+        if self.fault_at is not None and self.ncb == self.fault_at:
+            # a strategy doing real I/O under the real clock hits a fault; the framework contains the exception (C13) and the
+            # simulated clock must be back for every later update (C14)
+            with market.flumine.simulated_datetime.real_time():
+                raise ConnectionError("injected fault under real_time()")
 
     def process_closed_market(self, market, market_book):
         now = _dt.datetime.utcnow()
@@ -151,15 +164,73 @@ class Cleared(LoggingControl):
         self.closes.append(1)
 
 
-def run_once(paths, failures):
+def run_once(paths, failures, fault_at=None):
     client = clients.SimulatedClient()
     fw = FlumineSimulation(client=client)
     st = Recorder(failures, market_filter={"markets": paths, "event_processing": True}, max_order_exposure=1e6, max_selection_exposure=1e6, max_live_trade_count=1000)
+    st.fault_at = fault_at
     fw.add_strategy(st)
     lc = Cleared()
     fw.add_logging_control(lc)
     fw.run()
     return st, lc
+
+
+def iso(ms_):
+    return REAL_DATETIME.utcfromtimestamp(ms_ / 1000).strftime("%Y-%m-%dT%H:%M:%S.000Z")
+
+
+class FilterRecorder(BaseStrategy):
+    def __init__(self, **kw):
+        super().__init__(**kw)
+        self.got = []
+
+    def check_market_book(self, market, market_book):
+        return True
+
+    def process_market_book(self, market, market_book):
+        self.got.append(market_book.publish_time_epoch)
+
+
+def run_filtered(rnd, tmp, it, failures):
+    """C14 completeness under the listener's filters: a single recorded market whose scheduled start (marketTime) is changed by a
+    later market definition; listener filter seconds_to_start=X.  Oracle from the statement: an update passes iff the market is
+    not OPEN or (scheduled start IN FORCE at that update - publish time) <= X; exactly those are delivered, once, in file order."""
+    X = rnd.choice([120, 300, 600])
+    start = T0 + rnd.choice([400, 900, 1500]) * 1000
+    mid = "1.%09d" % (300000000 + it)
+    n = rnd.randint(8, 30)
+    step = rnd.choice([20, 30, 60]) * 1000
+    change_at = rnd.randint(2, n - 2) if rnd.random() < 0.7 else None
+    new_start = start + rnd.choice([-600, -300, -120, 120, 300, 900]) * 1000
+    lines, expected = [], []
+    pt, cur_start, status, version = T0, start, "OPEN", 100
+    for t in range(n):
+        pt += step
+        mc = {"id": mid, "rc": [{"id": s, "atb": [[2.0, 20]], "atl": [[2.2, 20]], "trd": [[2.0, 10.0 + t]]} for s in SELS]}
+        if t == 0 or t == change_at or rnd.random() < 0.1:
+            if t == change_at:
+                cur_start = new_start
+            elif t > 0:
+                status = rnd.choice(["OPEN", "OPEN", "SUSPENDED"]) if status == "OPEN" else "OPEN"
+            version += 1
+            d = md(status, version)
+            d["marketTime"] = iso(cur_start)
+            d["suspendTime"] = iso(cur_start)
+            mc["marketDefinition"] = d
+        lines.append(json.dumps({"op": "mcm", "clk": "A", "pt": pt, "mc": [mc]}))
+        if status != "OPEN" or (cur_start - pt) / 1000.0 <= X:
+            expected.append(pt)
+    p = os.path.join(tmp, mid)
+    open(p, "w").write("\n".join(lines) + "\n")
+    client = clients.SimulatedClient()
+    fw = FlumineSimulation(client=client)
+    st = FilterRecorder(market_filter={"markets": [p], "listener_kwargs": {"seconds_to_start": X}})
+    fw.add_strategy(st)
+    fw.run()
+    if st.got != expected:
+        failures.setdefault("C14", []).append("listener filter seconds_to_start=%d, scheduled start moved by a later definition (update %s): delivered %d updates %s..., %d pass the filter %s..." % (
+            X, change_at, len(st.got), st.got[:4], len(expected), expected[:4]))
 
 
 def main():
@@ -180,14 +251,22 @@ def main():
                 paths.append(p)
                 expected[mid] = exp
             try:
-                st, lc = run_once(paths, failures)
-                st2, lc2 = run_once(paths, {})
+                fault_at = rnd.choice([None, None, rnd.randint(1, 6)])
+                st, lc = run_once(paths, failures, fault_at)
+                st2, lc2 = run_once(paths, {}, fault_at)
             except Exception:
                 import traceback
                 failures.setdefault("CRASH", []).append(traceback.format_exc()[-900:])
                 break
             evaluations += 2
             distinct.add((nm, tuple(len(v) for v in expected.values())))
+            try:
+                run_filtered(rnd, tmp, it, failures)
+                evaluations += 1
+            except Exception:
+                import traceback
+                failures.setdefault("CRASH", []).append(traceback.format_exc()[-900:])
+                break
             if _dt.datetime is not REAL_DATETIME:
                 failures.setdefault("C14", []).append("the real datetime class is not restored after the run")
                 _dt.datetime = REAL_DATETIME
